@@ -215,7 +215,7 @@ def one_run(seed, run, force_config=None, overrides=None, max_diag=3):
 
     bad, n_cmp, trail = check_slots(program, env, st, okw)
     res["n_cmp"] = n_cmp
-    res["xdigest"] = runner.digest([program, config, plan, trail, sorted(res["fired"].items())])
+    res["xdigest"] = runner.digest([program, config, c01.plan_shape(plan), trail, sorted(res["fired"])])
     res["digest"] = runner.digest([res["xdigest"], trace, res["steps"], res["schedule_hash"]])
 
     seen = set()
